@@ -311,11 +311,12 @@ Proof.
   replace (S (N - 1 - S l)) with (S (N - 2 - l)) by lia. exact Hdr.
 Qed.
 
-Theorem spec_merge : forall c depth levels style, k_op c = OMerge depth levels style -> c09_wf c = true ->
+Theorem spec_merge : forall c depth levels style, k_op c = OMerge depth levels style mf_sum -> c09_wf c = true ->
   c09_holds c (c09_model c) = true.
 Proof.
   intros c depth levels style Hop Hwf. destruct (c09_wf_parts c Hwf) as [Hn [Et [Hd [Hs [Hi [Hsh Hok]]]]]].
   unfold op_ok in Hok. rewrite Hop in Hok.
+  apply andb_true_iff in Hok. destruct Hok as [Hok _].
   apply andb_true_iff in Hok. destruct Hok as [Hok Hd0]. apply Z.eqb_eq in Hd0.
   apply andb_true_iff in Hok. destruct Hok as [Hok Hst]. apply andb_true_iff in Hok. destruct Hok as [Hl0 Hl1].
   apply Nat.ltb_lt in Hl0, Hl1.
@@ -367,3 +368,27 @@ Proof.
       * subst q. apply Forall_forall. intros x Hx. rewrite Forall_forall in Hsg. apply Hsg.
         apply (in_firstn_skipn x (S (S l)) (S k) (fst pv)). exact Hx.
 Qed.
+
+(* ------------------------------------------------------------------ the oracle for max / min *)
+Theorem content_okf_sound : forall mfn d img src out, content_okf mfn d img src out = true ->
+  (forall q v, In (q, v) out ->
+     (exists p w, In (p, w) src /\ img p = q) /\ v = reds_to mfn img src q)
+  /\ (forall p w, In (p, w) src ->
+        reds_to mfn img src (img p) = d \/ exists v, In (img p, v) out).
+Proof.
+  intros mfn d img src out H. unfold content_okf in H. apply andb_true_iff in H. destruct H as [H1 H2].
+  rewrite forallb_forall in H1, H2. split.
+  - intros q v Hin. specialize (H1 _ Hin). simpl in H1. apply andb_true_iff in H1. destruct H1 as [Ha Hb].
+    apply existsb_exists in Ha. destruct Ha as [[p w] [Hp He]]. simpl in He. apply pt_eqb_eq in He.
+    split; [exists p, w; auto|]. apply Z.eqb_eq. exact Hb.
+  - intros p w Hin. specialize (H2 _ Hin). simpl in H2. apply orb_true_iff in H2. destruct H2 as [Ha|Hb].
+    + left. apply Z.eqb_eq. exact Ha.
+    + right. apply existsb_exists in Hb. destruct Hb as [[q v] [Hq He]]. simpl in He.
+      apply pt_eqb_eq in He. subst q. exists v. exact Hq.
+Qed.
+
+Lemma redv_cases : forall vs,
+  redv mf_sum vs = sumZ vs
+  /\ redv mf_max vs = match vs with [] => 0 | v :: vs' => fold_left Z.max vs' v end
+  /\ redv mf_min vs = match vs with [] => 0 | v :: vs' => fold_left Z.min vs' v end.
+Proof. intros. repeat split. Qed.
